@@ -30,6 +30,8 @@ def expc(c):
     if c == 0:
         return _ONE
     p = core.cur()
+    if p.notes.get('guide') is not None:
+        return z3.RealVal(fractions.Fraction(math.exp(float(c))))
     tab = p.notes.setdefault('expc', {})
     key = float(c)
     if key not in tab:
@@ -85,6 +87,29 @@ def is_pos(e):
 def _poly_zero(e):
     e = z3.simplify(e, som=True)
     return (z3.is_rational_value(e) or z3.is_int_value(e)) and e.as_fraction() == 0
+
+
+def poly_terms(e):
+    """sum-of-monomials normal form of a polynomial term: list of (coefficient Fraction, monomial key)"""
+    e = z3.simplify(e, som=True)
+    terms = list(e.children()) if z3.is_add(e) else [e]
+    out = []
+    for t in terms:
+        c = fractions.Fraction(1)
+        mono = []
+        fs = list(t.children()) if z3.is_mul(t) else [t]
+        for f in fs:
+            if z3.is_rational_value(f) or z3.is_int_value(f):
+                c *= f.as_fraction()
+            else:
+                mono.append(f.sexpr())
+        out.append((c, tuple(sorted(mono))))
+    return out
+
+
+def poly_nonneg(e):
+    """True when every coefficient of the expanded polynomial is >= 0 (hence e >= 0 for non-negative variables)"""
+    return all(c >= 0 for c, _ in poly_terms(e))
 
 
 def quotient(n, d):
@@ -151,7 +176,10 @@ class LP:
         if isinstance(x, S):
             # an ordinary symbolic real used as a log-value: its weight is exp(x), exp being an
             # uninterpreted positive strictly increasing function (core.uexp)
-            return LP(core.uexp(x).e)
+            r = core.uexp(x)
+            if isinstance(r, float):
+                return LP(_ONE if r == 1.0 else z3.RealVal(fractions.Fraction(r)))
+            return LP(r.e)
         raise TypeError('LP.of(%r)' % (type(x),))
 
     # log-domain arithmetic ---------------------------------------------------
@@ -160,6 +188,8 @@ class LP:
             return o.__radd__(self)
         if not isinstance(o, (LP, S)) and not _isnum(o):
             return NotImplemented
+        if _isnum(o) and o == 0:
+            return self
         o = LP.of(o)
         if self.zero or o.zero:
             return LP(_ZERO, True)
@@ -208,6 +238,8 @@ class LP:
     def __isfinite__(self):
         if self.zero:
             return False
+        if is_pos(self.p):
+            return True
         return SB(self.p > 0)
 
     # comparisons ---------------------------------------------------------------
